@@ -7,7 +7,7 @@ import re
 from .. import common as c, corpus, translate
 
 THEOREMS = [("Sylvia.Thm.C19", "C19.no_literal_framework_root"), ("Sylvia.Thm.C19", "C19.helper_params_clear"),
-            ("Sylvia.Thm.Obl.Tables", "Obl.extraction_complete")]
+            ("Sylvia.Thm.Obl.Complete.C19", "Obl.extraction_complete_C19")]
 FRAMEWORK = {"sylvia", "cosmwasm_std", "cosmwasm_schema", "cw_multi_test", "cw_utils", "schemars", "serde", "serde_json", "anyhow", "cw_std", "cw_schema"}
 WORDS = ["Msg", "Query", "Param", "Item", "Data", "Key", "Value", "Exec", "Custom", "Config", "State"]
 NAMES = [chr(65 + i) for i in range(26)] + WORDS
@@ -140,7 +140,7 @@ def run(ctx):
     ctx.assumptions += ["every emitted token comes from a template, an interpolated user token or the #sylvia path (greps for other token sources run with the check)",
                         "name resolution by rustc is observed on the corpora, not proved (partial)"]
     translate.regenerate()
-    c.prove(ctx, ["Sylvia.Thm.C19", "Sylvia.Thm.Obl.Tables"], THEOREMS)
+    c.prove(ctx, ["Sylvia.Thm.C19"], THEOREMS)
     rows, nsites = static_rows(ctx)
     ctx.cov["template_sites"] = nsites
     ctx.cov["offending_sites"] = rows
